@@ -58,8 +58,9 @@ SecRule RESPONSE_BODY "@contains BAD" "id:4,phase:4,deny,status:502"
 }
 
 // http <access> <processable> <limit> <R|P> <xbad> <reqblock> <reqbody> <script>
-//   script = comma list: h<code> | w<hex> | f        ("-" = empty)
-//   => inv=<0|1> read=<field> status=<n> body=<field> flushed=<0|1>
+//
+//	script = comma list: h<code> | w<hex> | f        ("-" = empty)
+//	=> inv=<0|1> read=<field> status=<n> body=<field> flushed=<0|1>
 func execHTTP(a []string) string {
 	access, proc := a[0] == "1", a[1] == "1"
 	limit, _ := strconv.Atoi(a[2])
